@@ -568,3 +568,8 @@ ITEMS += [
                 _ => r == Ok::<Option<ElemVal>, Error>(None) && final(self).index == old(self).index }''')],
          canaries=['C16:the_byte_offset_comes_first_then_the_byte_length']),
 ]
+ITEMS += [
+    dict(src=D, path='impl YamlDeserializer/fn new', props=['C05', 'C09'],
+         ensures=[('C05:a_new_deserializer_reads_from_the_given_cursor_with_the_given_configuration_outside_key_position',
+                   'r.ev.rest() == old(ev).rest() && r.cfg == cfg && !r.in_key && !r.key_empty_map_node')]),
+]
